@@ -168,15 +168,23 @@ func analyseFd(c *core.Ctx, v *vocab, f *fn, g *flow.Graph, src fdSource) []fdIs
 					if flow.IsPkgFunc(info, call, unixPkg, "Close") && len(call.Args) == 1 && isV(call.Args[0]) {
 						// the guard: the single conditional edge leading to this block
 						guard := "unconditional"
-						for _, e := range b.Preds {
-							if e.Cond != nil && e.Tag == nil {
-								if x, y, op, ok := flow.Cmp(e.Cond); ok && flow.IsNil(info, y) {
-									if o, isVar := flow.ObjOf(info, x).(*types.Var); isVar && v.isConnPtr(o.Type()) &&
-										((op == token.EQL && e.Sense) || (op == token.NEQ && !e.Sense)) && connOnlyFromCtorOf(info, g.Body, o, src.v, isCtor) {
-										guard = "conn-not-built"
-									}
+						if guardedBy(b, func(e *flow.Edge) (found, neutral bool) {
+							if e.Cond == nil || e.Tag != nil {
+								return false, e.Cond == nil
+							}
+							x, y, op, ok := flow.Cmp(e.Cond)
+							if !ok {
+								return false, false
+							}
+							if flow.IsNil(info, y) {
+								if o, isVar := flow.ObjOf(info, x).(*types.Var); isVar && v.isConnPtr(o.Type()) &&
+									((op == token.EQL && e.Sense) || (op == token.NEQ && !e.Sense)) && connOnlyFromCtorOf(info, g.Body, o, src.v, isCtor) {
+									return true, false
 								}
 							}
+							return false, isV(x) || isV(y) // a test of the descriptor variable itself (fd >= 0) narrows nothing else
+						}) {
+							guard = "conn-not-built"
 						}
 						closers = append(closers, closer{d, guard})
 					}
@@ -365,4 +373,21 @@ func connOnlyFromCtorOf(info *types.Info, body ast.Node, o *types.Var, fdVar *ty
 		return true
 	})
 	return ok && n > 0
+}
+
+// guardedBy walks from block b back through blocks entered over a single edge and reports whether one
+// of those edges is the wanted guard (found) while every edge passed before it is neutral.
+func guardedBy(b *flow.Block, classify func(e *flow.Edge) (found, neutral bool)) bool {
+	for depth := 0; depth < 6 && b != nil && len(b.Preds) == 1; depth++ {
+		e := b.Preds[0]
+		found, neutral := classify(e)
+		if found {
+			return true
+		}
+		if !neutral {
+			return false
+		}
+		b = e.From
+	}
+	return false
 }
